@@ -50,6 +50,8 @@ def cases(rng, tier):
             case.update(start=bound(), stop=bound(), step=rng.choice([None, None, 1, 1, 2, 2, 3, 4, -1]))
         if case["start"] in (None, 0) and case["stop"] is None and case["step"] in (None, 1):
             case["mode"] = "sub"  # empty pipeline: pipe() returns the source itself, there is no operator to observe raw
+        elif rng.random() < 0.3:
+            case["mode"] = "feedback"  # re-entrant Subject source: the consumer pushes the next element from inside on_next (oracle only)
         yield case
 
 
@@ -68,11 +70,13 @@ def make_sliced(case):
 def impl(case):
     if case["op"] == "slice_exh":
         return exh_impl(case)
+    if case.get("mode") == "feedback":
+        return C05.run_feedback(case, make_sliced(case))
     return C05.run_real(case, make_sliced(case))
 
 
 def model_request(case):
-    if case["op"] == "slice_exh":
+    if case["op"] == "slice_exh" or case.get("mode") == "feedback":
         return None
     return {k: v for k, v in case.items() if k not in ("form", "index")}
 
@@ -90,9 +94,15 @@ def oracle(case, out):
     if "ctor" in out:
         return f"unexpected constructor failure {out}"
     ts, xs, end, tend = C05.conforming(case["input"])
-    got = C05.cut(out["out"])
-    if case["mode"] == "sub" and got != out["out"]:
-        return f"subscriber saw notifications after a terminal: {out['out']}"
+    if "fb" in out:  # re-entrant feedback run: untimed output
+        timed = [[0, n] for n in out["fb"]]
+        if out["esc"]:
+            return f"exception escaped to the emitter: {out['esc']}"
+    else:
+        timed = out["out"]
+    got = C05.cut(timed)
+    if case["mode"] != "raw" and got != timed:
+        return f"subscriber saw notifications after a terminal: {timed}"
     vals = [n[1] for t, n in got if n[0] == "N"]
     term = got[-1][1] if got and got[-1][1][0] in ("C", "E") else None
     want = py_slice(xs, case)
